@@ -44,7 +44,7 @@ def run(ctx):
         if ctx.time_left() < 30:
             ctx.notes.append("stopped early on time budget")
             break
-        tree, mt, srcs = _fetch.gen(rng, nested=(i % 4 == 3), n_sources=rng.choice([1, 1, 2, 3]))
+        tree, mt, srcs = _fetch.gen(rng, nested=(i % 4 == 3), n_sources=rng.choice([1, 1, 2, 3]), deprecated=True)
         m = freephil.parse(input_string=mt)
         ss = [freephil.parse(input_string=s) for s in srcs]
         ia = _fetch.fetch_impl(m, ss)
